@@ -41,6 +41,13 @@ def ops(rng, tier, floats_only=False):
                 out.append(f"dextra {t} {i} #X=a200{hd}0180")
             out.append(f"dextra UnitE {i} #X=82018280{hd}")
         out.append("dextra UnitE ping #X=82008180")
+        # attributes that must not reach the wire: a variant tag on an index_only enum, a field tag on a transparent newtype
+        out += ["dextra IoT A #X=00", "dextra IoT B #X=01", "dextra IoT C #X=19012c", "dextra TrT 500 #X=1901f4", "dextra TrT 0 #X=00",
+                "dextra TrOuter 5 N B #X=8305f601", "dextra TrOuter 5 24 C #X=8305181819012c", "dextra TrOuter 0 N A #X=8300f600"]
+        # a mandatory field of a one-valued type that is absent is missing; one decoder after hundreds of failed derived decodes
+        out += ['dextra UnitMiss 7 #D=Err("missing")/Err("missing")', 'dextra UnitMiss 24 #D=Err("missing")/Err("missing")']
+        for n_ in (0, 1, 127, 128, 129, 130, 255, 256, 257, 300, 1000):
+            out.append(f"dextra Reuse {n_} #D=7,3fc00000,4004000000000000")
         for t_ in ("-", "61", "616263", "c3a9e282ac", "78" * 24):
             out.append(f"dextra CowS {t_} 7")
         # a three-state type whose nil value (K) is not what its decoder makes of `null` (C): a written `null` belongs to the type's decoder
@@ -69,6 +76,9 @@ def judge(op, impl, model, spec):
     iw = impl.split(" ")
     if len(iw) != 4 or not iw[1].startswith("len=") or not iw[2].startswith("dec=") or not iw[3].startswith("pos="):
         return "violation"
+    dd = [a[3:] for a in op.split(" ") if a.startswith("#D=")]
+    if dd:
+        return "ok" if iw[2][4:] == dd[0] else "violation"
     x = [a[3:] for a in op.split(" ") if a.startswith("#X=")]
     if x and iw[0] != x[0]:
         return "violation"
